@@ -610,7 +610,7 @@ func main() {
 		}
 	}
 	spawnRange("sess", run.N(96, 3000), 12, "c03-")
-	spawnRange("cached", run.N(400, 40000), 4, "cached-")
+	spawnRange("cached", run.N(400, 12000), 4, "cached-")
 	wg.Wait()
 	run.Assume("a piece frame that arrives after a choke frame on the same connection was written after the choke (TCP order = the client's write order)")
 	run.Finish(50)
